@@ -2,7 +2,7 @@
 import random, re
 from fractions import Fraction
 from . import core, sketchcheck
-from .sketchgen import Builder, mapspec, STORES, rand_values
+from .sketchgen import Builder, mapspec, STORES, rand_values, spec_list
 from .storegen import Shadow
 from .core import f2h, parse_F
 
@@ -83,7 +83,7 @@ def build(rng, facts, name):
 def run(tier, seed):
     rng = random.Random(seed)
     ok, log = core.build_vrun()
-    specs = [mapspec(rng)[0] for _ in range(12 if tier == "quick" else 50)]
+    specs = spec_list(rng, 12 if tier == "quick" else 50)
     facts = sketchcheck.learn_specs("C06", specs) if ok else {}
     builders = [build(rng, facts, "e%d" % i) for i in range(250 if tier == "quick" else 6000)] if facts else []
     return sketchcheck.run_sketch_property(
